@@ -71,7 +71,13 @@ def _run(case):
     if np.any(oracle.cond(Sigs) > 1e6):
         fails.append(Failure("excluded:ill_conditioned_derived", "marginal covariance cond > 1e6"))
         return fails
-    ok, got = lib(fails, tag + ".evaluate_ln", lambda: py.evaluate_ln(J(y)))
+    far = bool(case.get("far_mean"))
+    ld, lds = oracle.slogdet_spd(Sigs)
+    check(fails, tag + ":ln_det_Sigma", np.asarray(py.ln_det_Sigma), ld, lds)
+    kapS = np.maximum(1.0, oracle.cond(Sigs))
+    I = np.broadcast_to(np.eye(Dy), Sigs.shape)
+    check(fails, tag + ":Sigma_Lambda_identity", np.einsum("rij,rjk->rik", Sigs, np.asarray(py.Lambda)), I, kapS[:, None, None] * np.ones_like(Sigs))
+    ok, got = (False, None) if far else lib(fails, tag + ".evaluate_ln", lambda: py.evaluate_ln(J(y)))
     if ok:
         check(fails, tag + ":moment_form", got, want, scale)
         check(fails, tag + ":integral_over_x", got, want2, scale2 * 100)
@@ -82,6 +88,8 @@ def _run(case):
     if ok:
         ok, jm = lib(fails, "joint.get_marginal", lambda: j.get_marginal(jnp.arange(Dx, Dx + Dy)))
         if ok:
+            check(fails, tag + ":vs_joint_marginal_Sigma", np.asarray(py.Sigma), np.asarray(jm.Sigma), np.abs(Sigs).max((1, 2))[:, None, None] * np.ones_like(Sigs))
+        if ok and not far:
             ok, got2 = lib(fails, "joint.get_marginal.evaluate_ln", lambda: jm.evaluate_ln(J(y)))
             if ok:
                 check(fails, tag + ":vs_joint_marginal", got2, want, scale)
@@ -89,7 +97,7 @@ def _run(case):
 
 
 SUBS = [
-    Sub("marginal", _cond.pool, lambda shapes: _cond.strategy(shapes), _run, _cond.nontrivial, _cond.labels,
+    Sub("marginal", _cond.pool, lambda shapes: _cond.strategy(shapes, far_mean=True), _run, _cond.nontrivial, _cond.labels,
         examples={"quick": 150, "thorough": 500}, shards={"quick": 12, "thorough": 28},
         rule="batch combo != (1,1) or Dx,Dy>=2"),
 ]
